@@ -55,3 +55,111 @@ PROPS = {
         "technique": "Lean 4 proof (totality over explicit panic branches) with differential correspondence harness",
     },
 }
+
+SRV_TRUSTED = ["in-process Server driven through process_events() on loopback UDP: kernel delivers every datagram in send order and loses none (socket buffers enlarged); mio/epoll edge-trigger semantics are outside the model",
+               TB_CRYPTO]
+SRV_ASSUME = ["send_to never fails on loopback (the failed-send branch exists in the model but is not exercised)",
+              "model theorems assume the signature scheme is complete (verify(pk(seed), m, sign(seed, m))) and outputs have their standard lengths; nothing about unforgeability"]
+
+CLAIMED_SRV = {'C12', 'C20'}
+
+def _srv(pid, mode, theorems, module, rule, level_text, technique, extra=None, streams=None, min_nt=20):
+    d = {
+        "claimed": pid in CLAIMED_SRV,
+        "module": module,
+        "theorems": theorems,
+        "streams": streams or [{"args": ["srv", mode], "shards_quick": 8, "shards_thorough": 16}],
+        "ops": ["srv"],
+        "trivial": r":rep=0$",
+        "min_nontrivial": min_nt,
+        "rule": rule,
+        "trusted_base": SRV_TRUSTED,
+        "assumptions": SRV_ASSUME,
+        "design_ref": "5/" + pid,
+        "level_text": level_text,
+        "technique": technique,
+    }
+    if extra:
+        d.update(extra)
+    return d
+
+PROPS["C02"] = _srv("C02", "c02",
+    ["Rough.Props.C02.C02_respond_accepted", "Rough.Props.C02.C02_honest"], "Rough.Props.C02",
+    "scenarios on a real in-process Server: every batch size (15 sizes quick / 1..=64 thorough) as three consecutive batches n, m<n, n on one server (stale-state detection), classic / IETF / mixed, request sizes 1024..1500, with/without SRV; configured batch_size values with bursts larger than the batch; fault_percentage runs of 34x64 replies per setting ({10,50} quick, {1,5,10,25,50} thorough). L1 = every reply must be accepted by the independent Lean verifier (real Ed25519 + SHA-512 transcriptions) for a distinct outstanding request of the receiving socket; with faults each reply verifies or is rejected outright and the invalid share is tested against p (6 sigma). L2 = replies equal the model's byte-for-byte except SIG, CERT, MIDP (hidden online key / clock). non-trivial = scenario with at least one reply",
+    "Lean theorems: the reference verifier accepts the reference responder for every batch/position/keys (C02_respond_accepted), and every datagram the server model sends from any reachable state is such a reply (C02_honest, via the refinement C09_pass); tied to the code by trace validation of real server replies with an independent Lean verifier",
+    "Lean 4 proof (server model refines reference responder; verifier accepts responder) + trace validation against real server",
+    extra={"fault_share": True, "search_seeds": 1})
+PROPS["C07"] = _srv("C07", "c07",
+    ["Rough.Props.C07.C07_only_wellformed", "Rough.Props.C07.C07_classify_total", "Rough.Props.C07.C07_no_amplification"], "Rough.Props.C07",
+    "datagrams of length 0..65507: nonces of aligned lengths 0..1400 (step 44 quick / 4 thorough) in classic, IETF and single-field form; boundary lengths 1020..2048 incl. unaligned; every frame-length value within +-16 of the true one; random junk of 0..65507 bytes; full batches of 64 minimum-size requests (maximum path depth) per protocol; plus mixed valid/invalid scenarios; each burst closed by a sentinel valid request. L1 = reply only to datagrams the reference classification accepts (1024..1500, well-formed), exactly one each, and |reply| <= |request|. non-trivial = scenario with at least one reply",
+    "Lean theorems: accepted => length 1024..1500, well-formed per reference classification, nonce of protocol length; classification never panics; every sent reply is <= 944 bytes and no longer than the accepted request that elicited it, for every batch of <= 255; tied to the code by in-process server runs judged by the reference classifier",
+    "Lean 4 proof (classifier = reference classification; closed-form reply length) + differential server runs")
+PROPS["C08"] = _srv("C08", "c08",
+    ["Rough.Props.C08.C08_pass_safe", "Rough.Props.C08.C08_run_safe", "Rough.Props.C08.C08_still_serves", "Rough.Props.C08.C08_unfixed_witness"], "Rough.Props.C08",
+    "sequences of 1..3 (quick) / 1..6 (thorough) bursts of up to 140 datagrams: 60% junk / near-valid mutants (16 mutation kinds: empty, tiny, boundary sizes, 65507 bytes, truncated, oversized, wrong nonce length incl. empty and 1008-byte nonce, frame length off, unsupported version, wrong SRV, missing NONC, header bit flips, magic+junk, mis-ordered tags) interleaved with valid requests; log level drawn from Off..Trace with a harness logger that formats every record; fault_percentage 0 or 1..50; batch_size 1..64; process_events under catch_unwind; each sequence closed by a sentinel request from a fresh socket whose reply must verify. non-trivial = scenario with at least one reply",
+    "Lean theorems: from every reachable state, a pass over ANY chunk of datagrams at ANY log level with ANY drawable fault-injection decision returns normally and re-establishes the invariant (induction over histories), and afterwards valid requests get exactly the reference replies; relative to the modelled panic-site inventory; tied to the code by catch_unwind runs at every log level",
+    "Lean 4 proof (invariant by induction over passes, explicit panic branches) + catch_unwind correspondence", min_nt=50)
+PROPS["C09"] = _srv("C09", "c09",
+    ["Rough.Props.C09.C09_new", "Rough.Props.C09.C09_pass", "Rough.Props.C09.C09_run", "Rough.Props.C09.C09_exactly_once", "Rough.Props.C09.C09_protocol_separation"], "Rough.Props.C09",
+    "interleavings of valid classic, valid IETF and invalid (25%) datagrams from 1..8 client sockets (several requests per socket, identical nonces reused from different sockets), batch_size in {1,2,63,64,random}, bursts smaller than / equal to / larger than the batch size, up to 3 (quick) / 6 (thorough) bursts per server; every client socket read dry. L1 = per socket: bijection between replies and accepted requests of that socket, each reply verifying for that request's bytes and nonce. L2 = per-socket reply sequences equal the model's (IETF batch before classic batch per pass, chunking = batch_size). non-trivial = scenario with at least one reply",
+    "Lean theorems: one pass from any reachable state sends exactly the reference responder's reply per accepted request, to its source, own nonce/index/path, IETF batch then classic batch, nothing for rejected datagrams, for every chunking (C09_pass/C09_run); tied to the code by per-socket trace validation",
+    "Lean 4 proof (refinement of the batching loop to one-reply-per-accepted-request spec) + per-socket trace validation", min_nt=50)
+PROPS["C12"] = _srv("C12", "c12",
+    ["Rough.Props.C12.C12_spec", "Rough.Props.C12.C12_only_if", "Rough.Props.C12.C12_srep_states_version"], "Rough.Props.C12",
+    "EXHAUSTIVE version lists of length 0..4 (quick, 781 lists) / 0..6 (thorough, 19531 lists) over {draft-13, classic 0, 0x80000001, 0x8000000b, 0xffffffff} x SRV {absent, correct, random wrong}; for the minimal list: SRV under all 256 single-bit flips, lengths 0/28/36/64, another server's SRV; one client socket per request. L1 = reply iff reference classification says must (may = either), SREP states VER=draft-13 and VERS. non-trivial = scenario with at least one reply",
+    "Lean theorems: the request classifier agrees with the reference classification on every datagram (answered => draft-13 listed and SRV ours/absent; draft-13 among first four and other conditions => answered), signed SREP states VER and VERS; tied to the code by an exhaustive version-list sweep on the in-process server",
+    "Lean 4 proof (decision logic = reference classification) + exhaustive small-scope correspondence",
+    extra={"exhaustive_quick": True, "exhaustive_thorough": True}, min_nt=10)
+PROPS["C20"] = _srv("C20", "c20",
+    ["Rough.Props.C20.C20_factor", "Rough.Props.C20.C20_noninterference"], "Rough.Props.C20",
+    "monitor over everything emitted: for random and patterned seeds, log levels Off..Trace, valid/invalid/fault-injected traffic: every reply datagram and every formatted log record (harness logger) is searched for the seed, the clamped scalar and both halves of SHA-512(seed) in raw, hex (lower/upper) and base64 (std/url, padded/unpadded, 3 alignments) form at every offset; process-level stream additionally scans stdout/stderr of the real server binary (start-up, config error, panic). non-trivial = scenario with at least one reply",
+    "PARTIAL: Lean theorem of non-interference (all outputs of every run are a function of the public key and the two certificate signatures; the server state never contains the seed) + run-time substring monitor for what the model cannot express (Ed25519 not leaking the seed through signatures; log records)",
+    "Lean 4 proof (non-interference of the server model) + run-time leak monitor",
+    extra={"assumptions": SRV_ASSUME + ["that a public key and signatures do not reveal the seed is a property of Ed25519, not proved", "log records are monitored, not modelled"]})
+
+KEYS_TB = [TB_CRYPTO, "ed25519-dalek and ring are the implementation's own dependencies; the oracle column is an independent Lean transcription of RFC 8032 / FIPS 180-4"]
+PROPS["C13"] = {
+    "claimed": True, "module": "Rough.Props.C13",
+    "theorems": ["Rough.Props.C13.C13_signer", "Rough.Props.C13.C13_no_carry_over", "Rough.Props.C13.C13_chunking", "Rough.Props.C13.C13_verifier"],
+    "streams": [{"args": ["sign"], "shards_quick": 8, "shards_thorough": 16}],
+    "ops": ["sign", "vrf"], "trivial": r"^$", "min_nontrivial": 500,
+    "rule": "signer histories (200 quick / 1500 thorough): seeds incl. 0^32 and ff^32, 1..6 or 32 messages per signer object, message lengths 0..4096, random chunkings incl. empty chunks, immediate re-sign (empty message), trailing unsigned update; three columns: MsgSigner, ed25519-dalek one-shot, Lean RFC 8032 one-shot. Verifier: valid triples in random chunkings and EVERY single-bit corruption of message, signature (512) and key (256), wrong lengths, small-order / non-canonical keys with crafted signatures; MsgVerifier vs dalek direct vs Lean verify. all cases non-trivial",
+    "trusted_base": KEYS_TB, "assumptions": ["MsgVerifier::new panics on an undecodable key where dalek returns Err: both count as reject (the property speaks of acceptance)"],
+    "design_ref": "5/C13",
+    "level_text": "Lean theorems about the buffering logic for every history (k-th signature = one-shot signature of the k-th message's concatenated chunks, no carry-over, chunking-independent, verifier = one-shot verify), parametric in the scheme; the scheme itself is tied to RFC 8032 by an independent Lean transcription compared with the implementation and with ed25519-dalek on every run",
+    "technique": "Lean 4 proof (history induction over signer ops) + 3-way differential (impl / dalek / Lean RFC 8032)",
+}
+PROPS["C10"] = {
+    "claimed": True, "module": "Rough.Props.C10",
+    "theorems": ["Rough.Props.C10.C10_cert_valid", "Rough.Props.C10.C10_window", "Rough.Props.C10.C10_context_separation", "Rough.Props.C10.C10_no_carry_over", "Rough.Props.C10.C10_deterministic"],
+    "streams": [{"args": ["ltk"], "shards_quick": 4, "shards_thorough": 8}, {"args": ["srv", "c09"], "shards_quick": 8, "shards_thorough": 16}],
+    "ops": ["ltk", "srv"], "trivial": r":rep=0$", "min_nontrivial": 40,
+    "rule": "ltk cases: edge seeds (0^32, ff^32, RFC 8032 TEST 1-3, example.cfg) and random seeds (60 quick / 600 thorough): LongTermKey::{new, public_key, srv_value, make_cert} for IETF then classic then IETF again on one key object, Display, and Server::get_public_key of three Server instances per seed, compared with Lean RFC 8032 public key, SHA-512(0xff||pk)[0..32], and the fully determined certificate bytes (Ed25519 is deterministic); each certificate must verify under its own delegation context and must NOT verify under the other's. srv cases: CERT of every real reply verified under the seed's key by the spec verifier",
+    "trusted_base": KEYS_TB, "assumptions": ["'public key = RFC 8032 key of the seed' is a definition in the model; its assurance is the correspondence with the Lean RFC 8032 transcription, i.e. translation validation", "cross-context rejection is executed on every real certificate; as a theorem only the inequality of the signed messages is proved (C10_context_separation)"],
+    "design_ref": "5/C10",
+    "level_text": "Lean theorems: both certificates of every server verify under the seed's key in their own context and certify the responder's online key with window [0, 2^64-1]; contexts can never yield the same signed bytes; no signer carry-over between the two certificates; identity depends on the seed only; tied to the code by byte-exact certificate prediction and key/SRV comparison with Lean Ed25519/SHA-512",
+    "technique": "Lean 4 proof (key/cert construction) + byte-exact differential against Lean RFC 8032",
+}
+PROPS["C11"] = {
+    "claimed": True, "module": "Rough.Props.C11",
+    "theorems": ["Rough.Props.C11.C11_classic", "Rough.Props.C11.C11_ietf", "Rough.Props.C11.C11_radius", "Rough.Props.C11.C11_bracket", "Rough.Props.C11.C11_fields"],
+    "streams": [{"args": ["srep"], "shards_quick": 2, "shards_thorough": 8}, {"args": ["srv", "c02"], "shards_quick": 8, "shards_thorough": 16}],
+    "ops": ["srep", "srv"], "trivial": r":rep=0$|overflow-panic", "min_nontrivial": 200,
+    "rule": "srep cases: OnlineKey::make_srep(version, UNIX_EPOCH + Duration::new(s, n), root) for s on a grid 0 .. 2^62 (epoch, 2038, 2106, 2200, 3000, 9999-12-31, last/first second around the u64 microsecond overflow, random) x n in {0,1,999,1000,1001,999999,999999000,999999999,random}, both versions: MIDP = floor(t/unit), RADI = 5 s, ROOT echoed, signature verifies under make_dele's key, SREP bytes equal the model's. srv cases: MIDP of every reply of a running server lies in the harness's clock bracket [t0, t1] taken around the scenario",
+    "trusted_base": KEYS_TB, "assumptions": ["SystemTime::now() is the server clock; the harness brackets it with its own readings of the same clock", "classic midpoint arithmetic panics (overflow) only beyond year 584 554; the theorem's range hypothesis says so"],
+    "design_ref": "5/C11",
+    "level_text": "Lean theorems (pure arithmetic): midpoint = floor(clock/unit) for both versions over the whole non-overflowing range, radius = 5 s in unit, true time within [midp, midp+1 unit) inside midp +- radius, SREP carries exactly those fields; tied to the code by make_srep on a clock grid and by bracketing a running server",
+    "technique": "Lean 4 proof (arithmetic) + differential on make_srep grid + clock bracketing of real replies",
+}
+PROPS["C17"] = {
+    "claimed": True, "module": "Rough.Props.C17",
+    "theorems": ["Rough.Props.C17.C17_conservation", "Rough.Props.C17.C17_bounded", "Rough.Props.C17.C17_equiv", "Rough.Props.C17.C17_aggregated", "Rough.Props.C17.C17_merge", "Rough.Props.C17.C17_wiring"],
+    "streams": [{"args": ["stats"], "shards_quick": 8, "shards_thorough": 16}, {"args": ["srv", "c17"], "shards_quick": 8, "shards_thorough": 16}],
+    "ops": ["stats", "rep", "srv"], "trivial": r":rep=0$|^stats:len=0", "min_nontrivial": 500,
+    "rule": "stats cases: histories of the eight recording operations (+clear) on real PerClientStats (hook constructor with limits 0..3) and AggregatedStats over a pool of 3 addresses: bounded-exhaustive to length 4 (quick) / 5 (thorough), random to length 10000; splits across 1..4 recorders with snapshot points pushed through a real StatsQueue into Reporter::receive_client_stats. srv cases: traffic mixes through the in-process server, recorded totals vs datagrams actually received/sent",
+    "trusted_base": ["hooks: PerClientStats::with_limit_verif, Server::stats_verif (cfg roughenough_verif, add-only)", "crossbeam ArrayQueue with capacity >= number of snapshots (force_push never evicts)"],
+    "assumptions": ["counters are modelled as Nat (Rust u32/u64/usize: no overflow below 2^32 events per interval)", "first_seen timestamps are not compared"],
+    "design_ref": "5/C17",
+    "level_text": "Lean theorems for every history and limit: conservation (each event exactly once: its counter or the overflow count), bound and no duplicate addresses, per-client = aggregated while no overflow, merge preserves per-address sums, server wiring totals = traffic; tied to the code by bounded-exhaustive and long random histories on the real recorders and by in-process server traffic",
+    "technique": "Lean 4 proof (history induction over recorder ops) + bounded-exhaustive/random differential",
+}
